@@ -5,7 +5,7 @@ pos-append.  `one-flush-owner` is C19/stale-field (run by rules.c19, re-exported
 """
 from engine.mir import CalleeView, norm, AnchorMissing
 from engine.origin import Origin, strip, core, nosite, show, walk, is_const
-from engine.paths import Exits, conditions
+from engine.paths import Exits, conditions, must_pass
 from engine import lenalg as LA
 from engine.summ import return_origins
 
@@ -826,6 +826,47 @@ def rule_fresh_record(ctx, R="C01/fresh-record"):
     ctx.floor(R, "records written inside loops", n, 4)
 
 
+def rule_every_slot_filled(ctx, R="C01/every-slot-filled"):
+    """an array allocated for n elements and filled by a loop over the n source elements gets EVERY slot written: each iteration that does
+    not return an error reaches the set_value_at for its enumerated index.  A skipped iteration leaves an all-zero record in the stream —
+    offset 0, i.e. a 'name' or 'stack' that overlaps the header"""
+    n = 0
+    for b in ctx.prog.bodies:
+        if not (b.short.startswith("linux::sections::") or b.short.startswith("linux::dso_debug") or b.short.startswith("mem_writer::")):
+            continue
+        loops = b.loops()
+        if not loops:
+            continue
+        o = None
+        for bi, t in b.calls(lambda c: c.is_(SET_AT)):
+            inner = [h for h, body in loops.items() if bi in body]
+            if not inner:
+                continue
+            o = o or Origin(b)
+            idx = strip(o.call_args(bi)[3])
+            if not (idx[0] == "field" and idx[2] == "0" and any(q[0] == "call" and q[1].split("::")[-1] == "enumerate" for q in walk(idx))):
+                continue     # counter idiom (only matching elements get a slot) is decided by index-bound
+            h = max(inner, key=lambda x: len(loops[x]))
+            # the loop body: successor of the iterator's Some arm
+            nxt = [x for x in loops[h] if b.term(x)["k"] == "call" and (CalleeView(b.term(x)["callee"]).short or "").split("::")[-1] == "next" and all(b.dominates(x, l) for (l, hh) in b.back_edges() if hh == h)]
+            if not nxt:
+                continue
+            sw = b.term(nxt[0])["t"]
+            entry = None
+            for (tgt, lab) in b.succ_edges(sw):
+                if lab[0] == "sw" and lab[1] == 1:
+                    entry = tgt
+            if entry is None:
+                continue
+            n += 1
+            w = must_pass(b, entry, {h}, {bi})
+            ctx.check(w is None, R, (b.short.split("::")[-2] + "::" + b.short.split("::")[-1], "#%d" % n), b.where(bi),
+                      "every iteration that continues writes its slot (no element of the allocated array is left zero)",
+                      "an iteration can go on to the next element without writing its slot: the array keeps an all-zero record whose offsets point at the header",
+                      detail={"path": w})
+    ctx.floor(R, "enumerated fill loops", n, 3)
+
+
 def run(ctx):
     rule_size_origin(ctx)
     rule_dir_count(ctx)
@@ -835,6 +876,7 @@ def run(ctx):
     rule_rva_origin(ctx)
     rule_pos_append(ctx)
     rule_fresh_record(ctx)
+    rule_every_slot_filled(ctx)
     # string blobs (module/thread/handle/link-map names, OS version): the length header is the byte length of the body that follows it
     from rules import c16
     c16.rule_string(ctx, R="C01/string-length")
